@@ -6,8 +6,10 @@ import (
 	"fmt"
 	"sort"
 
+	v1 "github.com/celestiaorg/go-square/v2/proto/blob/v1"
 	"github.com/celestiaorg/go-square/v2/share"
 	"github.com/celestiaorg/go-square/v2/tx"
+	"google.golang.org/protobuf/proto"
 )
 
 // ---- namespaces ----
@@ -249,21 +251,44 @@ func decodeMockPFB(txb []byte) ([]uint32, error) {
 }
 
 func (c *Ctx) makeBlobTx(specs []blobSpec, fillerLen int) []byte {
-	blobs := make([]*share.Blob, len(specs))
 	sizes := make([]int, len(specs))
+	// encoded with the protobuf library directly - field for field what tx.MarshalBlobTx is specified to
+	// write - so that the inputs of every stream do not depend on the encoder under test
+	msg := &v1.BlobTx{TypeId: "BLOB"}
 	for i, s := range specs {
-		b, err := s.blob()
-		if err != nil {
+		if _, err := s.blob(); err != nil {
 			panic(fmt.Sprintf("generator produced an invalid blob: %v", err))
 		}
-		blobs[i] = b
 		sizes[i] = len(s.data)
+		msg.Blobs = append(msg.Blobs, &v1.BlobProto{NamespaceId: s.ns[1:], NamespaceVersion: uint32(s.ns[0]), Data: s.data, ShareVersion: uint32(s.ver), Signer: s.signer})
 	}
-	raw, err := tx.MarshalBlobTx(mockPFB(sizes, c.rng.Bytes(fillerLen)), blobs...)
+	msg.Tx = mockPFB(sizes, c.rng.Bytes(fillerLen))
+	raw, err := proto.Marshal(msg)
 	if err != nil {
 		panic(err)
 	}
 	return raw
+}
+
+// mustBlobTx decodes a blob transaction the generator made, independently of tx.UnmarshalBlobTx (protobuf
+// library + the blob constructor); never nil
+func mustBlobTx(raw []byte) *tx.BlobTx {
+	var msg v1.BlobTx
+	out := &tx.BlobTx{}
+	if proto.Unmarshal(raw, &msg) != nil {
+		return out
+	}
+	out.Tx = msg.Tx
+	for _, pb := range msg.Blobs {
+		ns, err := share.NewNamespace(uint8(pb.NamespaceVersion), pb.NamespaceId)
+		if err != nil {
+			continue
+		}
+		if b, err := share.NewBlob(ns, pb.Data, uint8(pb.ShareVersion), pb.Signer); err == nil {
+			out.Blobs = append(out.Blobs, b)
+		}
+	}
+	return out
 }
 
 // normalTx returns random bytes that UnmarshalBlobTx does not recognise as a blob tx.
